@@ -43,33 +43,76 @@ type scBeh struct {
 	MaxReq      int    `json:"maxreq"`
 	MaxBuffered int    `json:"maxbuffered"`
 	FinalBuf    int    `json:"finalbuf"`
+	Style       string `json:"style,omitempty"` // line terminator used to concretise the stream (chosen by the driver, kept in replay files)
 }
 
-func (b *scBeh) bytes() (s string, ends []int) {
+// bytes concretises the unit-abstracted stream with one of the three line terminators (same byte counts: the
+// payload shrinks to make room for two-byte terminators); "lf" is used where a unit is too small for the style.
+func (b *scBeh) bytes(style string) (s string, ends []int) {
+	nl := map[string]string{"lf": "\n", "crlf": "\r\n", "cr": "\r"}[style]
+	for _, u := range b.Stream.Units {
+		if u.E < 2*len(nl)+6 {
+			nl = "\n"
+		}
+	}
+	if t := b.Stream.Tail; (t.Kind == "line" || t.Kind == "event") && t.N < len(nl)+6 {
+		nl = "\n"
+	}
+	blank := func(n int) string {
+		if len(nl) == 1 {
+			return strings.Repeat(nl, n)
+		}
+		return strings.Repeat(nl, n/2) + strings.Repeat("\n", n%2)
+	}
 	var sb strings.Builder
 	for i, u := range b.Stream.Units {
-		sb.WriteString(strings.Repeat("\n", u.B))
-		if i == 0 && u.E >= 16 {
+		sb.WriteString(blank(u.B))
+		if i == 0 && b.withKey() {
 			// the first event carries an ID that every later event must still report intact
-			sb.WriteString("id:KEY0\ndata:")
-			sb.WriteString(strings.Repeat("a", u.E-15))
+			sb.WriteString("id:KEY0" + nl + "data:")
+			sb.WriteString(strings.Repeat("a", u.E-12-3*len(nl)))
 		} else {
 			sb.WriteString("data:")
-			sb.WriteString(strings.Repeat("a", u.E-7))
+			sb.WriteString(strings.Repeat("a", u.E-5-2*len(nl)))
 		}
-		sb.WriteString("\n\n")
+		sb.WriteString(nl + nl)
 		ends = append(ends, sb.Len())
 	}
 	t := b.Stream.Tail
 	switch t.Kind {
 	case "blank":
-		sb.WriteString(strings.Repeat("\n", t.N))
+		sb.WriteString(blank(t.N))
 	case "line":
 		sb.WriteString("data:" + strings.Repeat("a", t.N-5))
 	case "event":
-		sb.WriteString("data:" + strings.Repeat("a", t.N-6) + "\n")
+		sb.WriteString("data:" + strings.Repeat("a", t.N-5-len(nl)) + nl)
 	}
 	return sb.String(), ends
+}
+
+func (b *scBeh) withKey() bool { return len(b.Stream.Units) > 0 && b.Stream.Units[0].E >= 24 }
+
+// payload lengths of the delivered events for a style (see bytes)
+func (b *scBeh) wantData(style string, i int) (string, bool) {
+	nl := map[string]int{"lf": 1, "crlf": 2, "cr": 1}[style]
+	for _, u := range b.Stream.Units {
+		if u.E < 2*nl+6 {
+			nl = 1
+		}
+	}
+	if t := b.Stream.Tail; (t.Kind == "line" || t.Kind == "event") && t.N < nl+6 {
+		nl = 1
+	}
+	switch {
+	case i < len(b.Stream.Units):
+		if i == 0 && b.withKey() {
+			return strings.Repeat("a", b.Stream.Units[i].E-12-3*nl), true
+		}
+		return strings.Repeat("a", b.Stream.Units[i].E-5-2*nl), true
+	case i == len(b.Stream.Units) && b.Stream.Tail.Kind == "event":
+		return strings.Repeat("a", b.Stream.Tail.N-5-nl), true
+	}
+	return "", false
 }
 
 // countingReader hands out the stream in chunks and checks, at every Read call, how far the parser has
@@ -132,16 +175,28 @@ func cmdScan(args []string) {
 		if err := json.Unmarshal(line, &b); err != nil {
 			fatal("bad behaviour line %d: %v", idx, err)
 		}
-		stream, ends := b.bytes()
 		rng := rand.New(rand.NewSource(seed*1000003 + int64(idx)))
+		style := b.Style
+		if style == "" {
+			style = []string{"lf", "crlf", "cr", "lf"}[idx%4]
+			if b.Limit <= 300 {
+				style = []string{"lf", "crlf", "cr"}[idx%3]
+			}
+			b.Style = style
+		}
+		stream, ends := b.bytes(style)
 		exact := true // a unit of exactly the limit may go either way
+		slack := 0
+		if style == "crlf" {
+			slack = 1 // the LF of the closing CR LF need not be in the buffer for the event to be complete
+		}
 		for _, u := range b.Stream.Units {
-			if u.B+u.E == b.Limit {
+			if u.B+u.E >= b.Limit && u.B+u.E <= b.Limit+slack {
 				exact = false
 			}
 		}
 		if b.Stream.Tail.N >= b.Limit {
-			exact = exact && b.Status == "toolong" && b.Stream.Tail.N > b.Limit
+			exact = exact && b.Status == "toolong" && b.Stream.Tail.N > b.Limit+slack
 		}
 		chunkings := map[string]func(int) int{
 			"policy": func(req int) int {
@@ -193,7 +248,7 @@ func cmdScan(args []string) {
 				res.eval(1)
 				d := map[string]any{"driver": "scan", "behaviour": b, "chunking": cname, "eof_with_data": eofWith, "got_events": len(evs), "got_err": fmt.Sprint(err),
 					"read_ahead": rd.worst, "stream_bytes": len(stream)}
-				what := fmt.Sprintf("%s limit=%d (cap %d, max %d) units=%v tail=%s/%d chunking=%s", b.Cfg.Entry, b.Limit, b.Cfg.InitCap, b.Cfg.Max, b.Stream.Units, b.Stream.Tail.Kind, b.Stream.Tail.N, cname)
+				what := fmt.Sprintf("%s limit=%d (cap %d, max %d) units=%v tail=%s/%d chunking=%s line ends=%s", b.Cfg.Entry, b.Limit, b.Cfg.InitCap, b.Cfg.Max, b.Stream.Units, b.Stream.Tail.Kind, b.Stream.Tail.N, cname, style)
 				if pn != nil {
 					res.violate(fmt.Sprintf("panic: %v  [%s]", pn, what), "scan:panic", d)
 					continue
@@ -205,23 +260,12 @@ func cmdScan(args []string) {
 				// 2. every delivered event is intact and is the next unit's event: never a truncated one
 				okEvents := true
 				wantID := ""
-				if len(b.Stream.Units) > 0 && b.Stream.Units[0].E >= 16 {
+				if b.withKey() {
 					wantID = "KEY0"
 				}
 				for i, e := range evs {
-					var want string
-					if i < len(b.Stream.Units) {
-						want = strings.Repeat("a", b.Stream.Units[i].E-7)
-						if i == 0 && wantID != "" {
-							want = strings.Repeat("a", b.Stream.Units[i].E-15)
-						}
-					} else if i == len(b.Stream.Units) && b.Stream.Tail.Kind == "event" {
-						want = strings.Repeat("a", b.Stream.Tail.N-6)
-					} else {
-						okEvents = false
-						break
-					}
-					if e.Data != want || e.Type != "" || e.ID != wantID {
+					want, ok := b.wantData(style, i)
+					if !ok || e.Data != want || e.Type != "" || e.ID != wantID {
 						okEvents = false
 						break
 					}
